@@ -110,13 +110,13 @@ def check_state(run, cx, cfg):
                 if bad:
                     break
                 continue
-            if len(loops) != 1:
-                bad = 'expected one loop over the buffer'
+            if not loops:
+                bad = 'expected a loop over the buffer'
                 break
             enter = p['events'][loops[0]['enter']]
-            it = loops[0]['iter']
-            src = p['events'][it[1]] if it[0] == 'ret' else None
-            if not src or rp(src) != FX + 'iter_mut' or src['args'][0] != ('ref', self_loc(fi)):
+            # one pass over frames.iter_mut(), or over both halves of frames.slices_mut() (chained, or one loop each)
+            covers = [slot_cover(p, l['iter'], ('ref', self_loc(fi)), FX) for l in loops]
+            if any(c is None for c in covers) or (p['end'] == 'return' and not covers_all(covers)):
                 bad = 'must iterate frames.iter_mut() (every slot)'
                 break
             if enter.get('heap_before', {}).get(self_loc(ii)) != ('int', 0, 'usize'):
@@ -130,7 +130,7 @@ def check_state(run, cx, cfg):
             if wi is not None and not (wi[0] == 'phiheap' and wi[3] == self_loc(ii)):
                 bad = 'idx is modified again after being zeroed'
                 break
-            nk = loops[0]['next']
+            nk = loops[-1]['next']
             d = dict(cond_facts(p)).get(('discr', ('ret', nk)))
             if d == ('int', 1, 'isize'):
                 el = ('field', ('variant', ('ret', nk), 1), 0)
@@ -138,7 +138,7 @@ def check_state(run, cx, cfg):
                 if w is None or not (w[0] == 'assoc' and w[2] == 'EQUILIBRIUM'):
                     bad = 'each slot must be set to EQUILIBRIUM'
                 kinds.add('slot')
-            else:
+            elif p['end'] == 'return':
                 kinds.add('end')
         if not bad and kinds != {'slot', 'end'}:
             bad = 'missing case'
